@@ -95,13 +95,12 @@ structure ConfOK (c : Conf) : Prop where
 
 def DiskOK (c : Conf) (d : List DLease) : Prop :=
   (d.map (·.ip)).Nodup ∧ (d.map (·.mac)).Nodup ∧
-  (∀ x ∈ d, x.static = false → c.start ≤ x.ip ∧ x.ip ≤ c.stop) ∧ (∀ x ∈ d, x.mac.length = 6)
+  (∀ x ∈ d, x.static = false → c.start ≤ x.ip ∧ x.ip ≤ c.stop)
 
 /-- The invariant of the lease table. -/
 structure Inv (c : Conf) (s : State) : Prop where
   ipNodup : (s.leases.map (·.ip)).Nodup
   macNodup : (s.leases.map (·.mac)).Nodup
-  macLen : ∀ l ∈ s.leases, l.mac.length = 6
   dynPool : ∀ l ∈ s.leases, l.static = false → c.start ≤ l.ip ∧ l.ip ≤ c.stop
   bitsIff : ∀ o, s.bits o = true ↔ ∃ l ∈ s.leases, l.ip = c.start + o ∧ l.ip ≤ c.stop
   ipsIff : ∀ ip id, s.ips ip = some id ↔ ∃ l ∈ s.leases, l.ip = ip ∧ l.id = id
@@ -145,7 +144,7 @@ theorem Inv_store {c : Conf} {s : State} (h : Inv c s) : Inv c s.store := by
   simp only [State.store, Option.some.injEq] at hd
   subst hd
   have hp := sortByHost_perm (s.leases.map Lease.toDisk)
-  refine ⟨?_, ?_, ?_, ?_⟩
+  refine ⟨?_, ?_, ?_⟩
   · have : (List.map (·.ip) (s.leases.map Lease.toDisk)) = s.leases.map (·.ip) := by
       simp [List.map_map, Function.comp_def, Lease.toDisk]
     exact (hp.map _).nodup_iff.2 (this ▸ h.ipNodup)
@@ -155,9 +154,6 @@ theorem Inv_store {c : Conf} {s : State} (h : Inv c s) : Inv c s.store := by
   · intro x hx hs
     rcases List.mem_map.1 (hp.mem_iff.1 hx) with ⟨l, hl, rfl⟩
     exact h.dynPool l hl (by simpa [Lease.toDisk] using hs)
-  · intro x hx
-    rcases List.mem_map.1 (hp.mem_iff.1 hx) with ⟨l, hl, rfl⟩
-    exact h.macLen l hl
 
 theorem Mirror_store (s : State) : Mirror s.store := .inl rfl
 
@@ -168,7 +164,6 @@ theorem Inv_congr {c : Conf} {s s' : State} (h : Inv c s)
   constructor
   · rw [h1]; exact h.ipNodup
   · rw [h1]; exact h.macNodup
-  · rw [h1]; exact h.macLen
   · rw [h1]; exact h.dynPool
   · rw [h1, h2]; exact h.bitsIff
   · rw [h1, h3]; exact h.ipsIff
